@@ -3,6 +3,7 @@
 #define HARNESS_FORK_EACH 1
 #include "common.h"
 #include <stdint.h>
+#include <stddef.h>
 #include <pthread.h>
 #include <fcntl.h>
 #include "poll.h"      /* private headers: read-only peeking for the state dump and batch recording */
@@ -67,7 +68,17 @@ static __thread int t_alien;               /* set in helper threads that play "a
 #define FR (T->FR_)
 #define nfr (T->nfr_)
 #define g_main_thread (T->g_main_thread_)
-#define printf(...) fprintf(T->out_ ? T->out_ : stdout, __VA_ARGS__)
+/* every output line goes through here: a script that makes the library spin (or recurse) must not fill the machine */
+#include <stdarg.h>
+static long g_out_bytes;
+static int hprintf(const char *fmt, ...) {
+    va_list ap; va_start(ap, fmt);
+    int n = vfprintf(T->out_ ? T->out_ : stdout, fmt, ap);
+    va_end(ap);
+    if (n > 0 && (g_out_bytes += n) > (8L << 20)) { fflush(NULL); _exit(96); }    /* reported as `FAULT exit 96` */
+    return n;
+}
+#define printf(...) hprintf(__VA_ARGS__)
 
 static const char *htok(const m_mod_t *m) {
     for (int i = 0; i < nh; i++) if (H[i].mod == m) return H[i].tok;
@@ -149,9 +160,11 @@ int __wrap_poll_wait(poll_priv_t *priv, const int timeout) {
     if (n < 0) n = 0;
     if (timeout != 0) loop_polls++;
     if (timeout != 0 && (n == 0 || loop_polls > 12)) {
-        if ((++empty_polls >= 3 || loop_polls > 12) && g_ctx) {
+        /* the context that is being polled (not necessarily the thread's current one any more) */
+        m_ctx_t *lc = (m_ctx_t *)((char *)priv - offsetof(m_ctx_t, ppriv));
+        if ((++empty_polls >= 3 || loop_polls > 12) && lc) {
             printf("BATCH !quit\n");
-            g_ctx->quit = true; g_ctx->quit_code = 77;
+            lc->quit = true; lc->quit_code = 77;
             errno = 0;
             return 0;
         }
@@ -456,6 +469,8 @@ static void xtell_call(m_mod_t *m, const char *name, int pill) {
 }
 
 static void run_script(const script_t *s) {
+    alarm(20);          /* wall-clock budget of one script: SIGALRM ends the child, the parent reports `FAULT signal 14` */
+    g_out_bytes = 0;
     S = s; cur = 0; nh = 0; nfr = 0; npipes = 0; ndups = 0; g_ctx = NULL; g_main_thread = pthread_self(); g_errno_leave = -1;
 #ifndef HARNESS_MULTI
     m_set_memhook(my_malloc, my_calloc, my_free);
